@@ -307,3 +307,115 @@ func mentionsSuffix(m map[string]bool, suffix string) bool {
 	}
 	return false
 }
+
+// limit-coherence: what the write side admits the read side must be able to ask for. Contract storage accepts keys of
+// MaxStorageKeyLen bytes and values of MaxStorageValueLen bytes; in the trie a key is the 4-byte contract id followed
+// by the storage key. The trie's own limits, which only its read paths (Get, GetProof, Find) and node decoder
+// enforce, must cover that - otherwise a stored pair exists that cannot be read, proved or found against its root.
+// Constants are read from the type checker (go/constant), the relations are frozen here with their reason.
+type constRel struct {
+	id             string
+	lhsPkg, lhs    string
+	rhsPkg, rhs    string
+	plus           int64
+	why            string
+}
+
+var constRels = []constRel{
+	{"mpt-key-covers-storage-key", "pkg/core/mpt", "MaxKeyLength", "pkg/config/limits", "MaxStorageKeyLen", 4, "trie key = contract id (int32, 4 bytes) + storage key"},
+	{"mpt-value-covers-storage-value", "pkg/core/mpt", "MaxValueLength", "pkg/config/limits", "MaxStorageValueLen", 0, "a leaf holds the storage value"},
+}
+
+func ruleLimitCoherence(c *Ctx) {
+	get := func(rel, name string) (int64, bool) {
+		pk := c.P.Pkg(rel)
+		if pk == nil {
+			return 0, false
+		}
+		k, ok := pk.Types.Scope().Lookup(name).(*types.Const)
+		if !ok {
+			return 0, false
+		}
+		return constant.Int64Val(constant.ToInt(k.Val()))
+	}
+	for _, r := range constRels {
+		l, ok1 := get(r.lhsPkg, r.lhs)
+		rv, ok2 := get(r.rhsPkg, r.rhs)
+		if !ok1 || !ok2 {
+			c.Lost(r.id, fmt.Sprintf("constant %s.%s or %s.%s not found", r.lhsPkg, r.lhs, r.rhsPkg, r.rhs))
+			continue
+		}
+		pos := ""
+		if pk := c.P.Pkg(r.lhsPkg); pk != nil {
+			pos = c.P.Pos(pk.Types.Scope().Lookup(r.lhs).Pos())
+		}
+		if l >= rv+r.plus {
+			c.OK(r.id, pos, fmt.Sprintf("%s.%s = %d >= %s.%s + %d = %d (%s)", shortSym(r.lhsPkg), r.lhs, l, shortSym(r.rhsPkg), r.rhs, r.plus, rv+r.plus, r.why))
+		} else {
+			c.Fail(r.id, pos, fmt.Sprintf("%s.%s = %d is below %s.%s + %d = %d (%s): pairs the write path stores cannot be read, proved or range-searched against their own state root", r.lhsPkg, r.lhs, l, r.rhsPkg, r.rhs, r.plus, rv+r.plus, r.why))
+		}
+	}
+}
+
+// value-absence: in package mpt an absent leaf value is nil; an empty value ([]byte{}) is a legal stored value.
+// A []byte that becomes a leaf (argument of NewLeafNode) must therefore never be tested for absence by its length.
+func ruleValueAbsence(c *Ctx) {
+	pk := c.P.Pkg("pkg/core/mpt")
+	if pk == nil {
+		c.Lost("anchor", "package mpt not found")
+		return
+	}
+	n := 0
+	for _, fd := range c.P.AllFuncDecls() {
+		if fd.Pkg != pk || fd.Decl.Body == nil {
+			continue
+		}
+		info := pk.TypesInfo
+		vals := map[types.Object]bool{}
+		ast.Inspect(fd.Decl.Body, func(x ast.Node) bool {
+			call, ok := x.(*ast.CallExpr)
+			if !ok {
+				return true
+			}
+			if id, ok := ast.Unparen(call.Fun).(*ast.Ident); ok && id.Name == "NewLeafNode" && len(call.Args) == 1 {
+				if a, ok := ast.Unparen(call.Args[0]).(*ast.Ident); ok {
+					if o := info.ObjectOf(a); o != nil {
+						vals[o] = true
+					}
+				}
+			}
+			return true
+		})
+		if len(vals) == 0 {
+			continue
+		}
+		idx := 0
+		ast.Inspect(fd.Decl.Body, func(x ast.Node) bool {
+			be, ok := x.(*ast.BinaryExpr)
+			if !ok {
+				return true
+			}
+			for _, pair := range [][2]ast.Expr{{be.X, be.Y}, {be.Y, be.X}} {
+				call, ok := ast.Unparen(pair[0]).(*ast.CallExpr)
+				if !ok || len(call.Args) != 1 {
+					continue
+				}
+				if id, ok := ast.Unparen(call.Fun).(*ast.Ident); !ok || id.Name != "len" {
+					continue
+				}
+				a, ok := ast.Unparen(call.Args[0]).(*ast.Ident)
+				if !ok || !vals[info.ObjectOf(a)] || !isZeroConst(info, pair[1]) {
+					continue
+				}
+				idx++
+				c.Fail(fmt.Sprintf("%s.len-test#%d", FuncKey(fd.Obj), idx), c.P.Pos(be.Pos()), fmt.Sprintf("%s tests len(%s) against 0 although %s becomes a leaf value: an empty value is a stored value, only nil means absent - the key would silently vanish from the trie", FuncKey(fd.Obj), a.Name, a.Name))
+			}
+			return true
+		})
+		n += len(vals)
+		if idx == 0 {
+			c.OK(FuncKey(fd.Obj)+".values", c.P.Pos(fd.Decl.Pos()), fmt.Sprintf("%d leaf-value variables, none tested for absence by length", len(vals)))
+		}
+	}
+	c.Floor("variables that become leaf values", n, 3)
+}
